@@ -520,7 +520,18 @@ func TestC01_Bound(t *testing.T) {
 				ks = append(ks, k)
 			}
 			sort.Strings(ks)
-			op := rp.Pick(rt, "metaMutation", "missing-key", "other-value", "case-key", "swap-values", "empty-vs-absent")
+			op := rp.Pick(rt, "metaMutation", "missing-key", "other-value", "case-key", "swap-values", "empty-vs-absent", "pool-pair-not-signed", "pool-pair-not-signed")
+			if op == "pool-pair-not-signed" {
+				// a pair that OTHER signatures of this run carry (keys and values come from the same small
+				// pool) but this one does not: state leaking between verifications would satisfy it
+				for _, k := range []string{"env", "Env", "build", "owner", "stage"} {
+					if _, signed := ann[k]; !signed {
+						p.Required[k] = rp.Pick(rt, "poolValue", "prod", "Prod", "42", "", "dev")
+						c.Detail += "pool-pair-not-signed;"
+						return
+					}
+				}
+			}
 			switch {
 			case op == "missing-key" || len(ks) == 0:
 				p.Required["not-signed"] = rp.Pick(rt, "nsv", "v", "")
